@@ -224,6 +224,20 @@ def gen_cases(tier, rng):
             yield Case("c19.hevc_sps " + tokb(m), cls="hevc_sps-mutated")
         for m in list(mutations(rng, vn, 6 if q else 40))[len(vn) + 1:]:
             yield Case("c19.hevc_vps " + tokb(m), cls="hevc_vps-mutated")
+    # SPS whose count fields (pic_order_cnt cycle, scaling lists, every ue(v), hevc sub-layer loops) are huge while the
+    # data ends right behind them (generator shared with C05): a parser call that takes more than 2 s prints `slow(..)`
+    from gen import c05 as _c05
+    seen = set()
+    for cls, sps in _c05.avc_loop_sps():
+        if sps not in seen:
+            seen.add(sps)
+            yield Case("c19.avc_sps " + tokb(sps), cls="avc_sps-loops")
+            if len(seen) % 4 == 0:
+                yield Case("c19.avc_rt %s %s" % (tokb(sps), "68ce3c80"), cls="avc_rt-loops")
+    for cls, sps in _c05.hevc_loop_sps():
+        if sps not in seen:
+            seen.add(sps)
+            yield Case("c19.hevc_sps " + tokb(sps), cls="hevc_sps-loops")
     vn, sn = hv[0]
     for i, n in enumerate([1, 2, 3, 255, 256, 65535, 65536]):
         def ext(b, n):
